@@ -246,6 +246,17 @@ type nopVisitor struct{ n int }
 func (v *nopVisitor) Enter(n js.INode) js.IVisitor { v.n++; return v }
 func (v *nopVisitor) Exit(n js.INode)              {}
 
+type pruneVisitor struct{ every, n int }
+
+func (v *pruneVisitor) Enter(n js.INode) js.IVisitor {
+	v.n++
+	if v.n%v.every == 0 {
+		return nil
+	}
+	return v
+}
+func (v *pruneVisitor) Exit(n js.INode) {}
+
 func jsOptions(s string) js.Options {
 	return js.Options{WhileToFor: len(s) > 0 && s[0] == '1', Inline: len(s) > 1 && s[1] == '1'}
 }
@@ -276,6 +287,13 @@ func c01JSParse(c *engine.Ctx, in []byte, args map[string]string) {
 	_, _ = ast.JSONString()
 	v := &nopVisitor{}
 	js.Walk(v, ast)
+	// a visitor may prune: nil from Enter at the first node, at every second and at every third one
+	for _, k := range []int{1, 2, 3} {
+		if v.n > 20000 && k > 1 {
+			break
+		}
+		js.Walk(&pruneVisitor{every: k}, ast)
+	}
 	c.Observe(engine.Hash64([]byte(s1)))
 }
 
